@@ -1151,6 +1151,13 @@ class GenericPlainRegistry(Generic[QuantityT, UnitT], metaclass=RegistryMeta):
                         continue
                 if case_sensitive:
                     if name in self._units:
+                        # A prefix applies to a defined spelling only, not to a
+                        # prefixed unit that get_name registered on the fly
+                        # (those are not in the case-insensitive index).
+                        if prefix and name not in self._units_casei.get(
+                            name.lower(), ()
+                        ):
+                            continue
                         yield (
                             self._prefixes[prefix].name,
                             self._units[name].name,
